@@ -26,10 +26,13 @@ RULE = ('PARSE: images built by an independent HPM.1 encoder (harness twin of Sp
         're-tried as a single parse (signature C18:history:* when only the history shows it).  UPLOAD: binaries of 0..6000 bytes '
         '(directed around 22-byte and 256-block boundaries) sent by Hpm.upload_binary through a fake interface to a '
         'reference device that parses the request bytes, under plans answering any subset of blocks with 80h '
-        '(0..n further in-progress polls, also more than the time-out allows), one block with another code, or '
+        '(0..n further in-progress status answers, also more than the time-out allows, then the final completion code of '
+        'the long duration command in Get upgrade status: 00h or a failure code), one block with another code, or '
         'silence; virtual clock; the recorded requests are compared with the model and judged by the property '
-        '(data exact, numbered i mod 256, 0 < len <= 22, status poll right after every 80h, HpmError and nothing '
-        'sent after another code).  Distinct by (image bytes) / (binary, plan, timing); non-trivial = at least one '
+        '(data exact, numbered i mod 256, 0 < len <= 22, status poll right after every 80h, the next block only after '
+        'the status reported the final 00h, HpmError and nothing sent after another code - be it the answer to the block '
+        'or the final code of its long duration command -, no further block and no normal return while 80h is still '
+        'reported).  Distinct by (image bytes) / (binary, plan, timing); non-trivial = at least one '
         'record / one block.')
 ASSUMPTIONS = [
     'models of pyipmi/hpm.py (parser, upload loop), fields.VersionField and utils.chunks are tied by the translator '
@@ -41,7 +44,15 @@ ASSUMPTIONS = [
     'record type 3 ("upload for compare") is emitted as a header-only record, which is how the library reads it; '
     'HPM.1 R1.0 defines image record types 0..2 only',
     'device limit for one firmware block is 22 bytes (DESIGN §C18); the device answers status requests with '
-    'completion code 00h; interface time-outs / IOError during status polling are not generated',
+    'completion code 00h (the outcome of the long duration command is in the response DATA: last completion code); '
+    'interface time-outs / IOError during status polling are not generated',
+    'a block that is not answered at all (silence, interface time-out) is outside the quantifier ("blocks answered with '
+    'the in-progress code or another error"): only what was sent is judged then.  upload_binary goes on with the NEXT '
+    'block after a time-out (audit finding 3: the lost block is not re-sent) - every byte the library sends is still sent '
+    'once, in order and consecutively numbered, which is all the property says about requests; whether the device '
+    'received them is a transport matter outside C18',
+    'when the time-out expires while the status still reports 80h the upload must not go on and must not return normally; '
+    'which library error it raises is not judged (the repaired code raises HpmError)',
     'histories: Hpm.install_component_from_file (parse + whole upgrade procedure) is not driven; it opens the file with the '
     'same UpgradeImage(filename) call the history stream drives',
     'the firmware description string is observed but, not being named by the property, only its ability to make '
@@ -53,6 +64,7 @@ TRUSTED = ['harness/translate/hpm.py', 'harness/sim/dev18.py', 'harness/sim/pris
 DEVICE_BLOCK_LIMIT = 22
 SIGNATURE = b'PICMGFWU'
 _k = None
+_CHECKED = 0        # upload variant the real code has (probed): 1 = the outcome of the status polls is checked
 
 
 def translate(ctx):
@@ -221,7 +233,8 @@ def _view(im):
                      _hx(h.signature), h.format_version, h.device_id, h.manufacturer_id, h.product_id, h.time,
                      h.capabilities, _nl(h.components), h.selftest_timeout, h.rollback_timeout,
                      h.inaccessibility_timeout, _ver(h.earliest_compatible_revision), _ver(h.firmware_revision),
-                     h.oem_data_length, _hx(getattr(h, 'oem_data', b'')), h.checksum, h.length)]
+                     h.oem_data_length, _hx(h.oem_data) if hasattr(h, 'oem_data') else 'MISSING', h.checksum,
+                     h.length)]
         for a in im.actions:
             s = 'A t=%d c=%d k=%d l=%d' % (a.action_type, a.components, a.checksum, a.length)
             if a.action != a.action_type:
@@ -270,6 +283,11 @@ def judge_parse(ctx, case, expected, real):
     e, r = expected.split(' | '), real.split(' | ')
     eh, rh = _kv(e[0]), _kv(r[0])
     for key in eh:
+        if key == 'oem' and rh.get(key) == 'MISSING':
+            ctx.violate('C18:parse:header.oem_data-missing',
+                        'the parsed header has no oem_data attribute (AttributeError) for an image with %s OEM bytes' %
+                        eh.get('oemlen'), case, expected='oem=%s' % eh[key][:200], observed='no attribute oem_data')
+            return
         if rh.get(key) != eh[key]:
             ctx.violate('C18:parse:header.%s' % HDR_NAMES.get(key, key),
                         'image header field %s is not what the image contains' % HDR_NAMES.get(key, key), case,
@@ -409,16 +427,37 @@ PROBE = {'hdr': {'fv': 0, 'dev': 1, 'man': 15000, 'prod': 2, 'time': 3, 'cap': 0
 def probe_variant(ctx, work):
     _PARSELOG.append(PROBE)
     real = real_parse(work, encode_image(PROBE))
-    oem_whole, desc_esc = 0, 0
+    oem_whole, desc_esc, oem_unset = 0, 0, 0
     if ' | ' in real:
         parts = real.split(' | ')
         oem_whole = 0 if _kv(parts[0]).get('oem') == 'aabb' else 1
         desc_esc = 0 if _kv(parts[1]).get('d') == _nl(bytes.fromhex(PROBE['recs'][0]['desc'])) else 1
     else:
         ctx.notes.append('variant probe did not parse: %s' % real)
+    probe0 = dict(PROBE, hdr=dict(PROBE['hdr'], oem=''))
+    _PARSELOG.append(probe0)
+    real0 = real_parse(work, encode_image(probe0))
+    if ' | ' in real0:
+        oem_unset = 1 if _kv(real0.split(' | ')[0]).get('oem') == 'MISSING' else 0
+    else:
+        ctx.notes.append('variant probe (no OEM data) did not parse: %s' % real0)
     ctx.extra['variant'] = {'oem_data_whole_rest(as shipped)': bool(oem_whole),
-                            'description_raw_unicode_escape(as shipped)': bool(desc_esc)}
-    return oem_whole, desc_esc
+                            'description_raw_unicode_escape(as shipped)': bool(desc_esc),
+                            'oem_data_unset_for_length_0(as shipped)': bool(oem_unset)}
+    return oem_whole, desc_esc, oem_unset
+
+
+def probe_upload_variant(ctx):
+    """does upload_binary look at what the status polls report?  (one block accepted with 80h, the first status
+    poll reports that the long duration command failed)"""
+    tag, _, _ = run_upload(bytes(10), [('f', 0, 0xFF)], 20, 1, 0, 3)
+    checked = 1 if tag == 'HpmError' else 0
+    ctx.extra.setdefault('variant', {})['status_poll_outcome_ignored(as shipped)'] = not checked
+    return checked
+
+
+def _parse_line(variant, data):
+    return 'parse %d %d %d %s' % (variant[0], variant[1], variant[2], _hx(data))
 
 
 # ------------------------------------------------------------------------------------------
@@ -456,7 +495,7 @@ def check_image(ctx, drv, work, variant, label, img, sample=False):
             ctx.disagree('spec-encoder', case, sbytes[:300], _hx(data)[:300])
         if sview != expected:
             ctx.disagree('spec-view', case, sview[:600], expected[:600])
-        model = drv.ask('parse %d %d %s' % (variant[0], variant[1], _hx(data)))
+        model = drv.ask(_parse_line(variant, data))
         if model != real:
             ctx.disagree('parse', case, _first_diff(model, real), _first_diff(real, model))
         if sample:
@@ -503,7 +542,7 @@ def malformed_stream(ctx, drv, work, variant, rng, n):
         ctx.case(('malformed', data), nontrivial=len(data) > 0)
         ctx.count('malformed:' + kind)
         real = real_parse(work, data)
-        model = drv.ask('parse %d %d %s' % (variant[0], variant[1], _hx(data)))
+        model = drv.ask(_parse_line(variant, data))
         ctx.count('malformed:real=' + ('ok' if ' | ' in real else real))
         if model != real:
             ctx.disagree('parse-malformed', {'kind': 'parse-bytes', 'data': _hx(data)},
@@ -756,7 +795,7 @@ def history_stream(ctx, drv, variant, rng, n_random):
         ctx.count('history:kept-results-re-read', len(res['reread']))
         # tie: the Lean parser model is a function of the bytes alone
         if drv is not None:
-            lines = ['parse %d %d %s' % (variant[0], variant[1], _hx(encode_image(s['image']))) for s in steps
+            lines = [_parse_line(variant, encode_image(s['image'])) for s in steps
                      if s['api'] != 'version_from_file']
             models = iter(drv.ask_many(lines))
             for i, (st, got) in enumerate(zip(steps, res['steps'])):
@@ -944,6 +983,40 @@ def run_upload(binary, plan, timeout, interval, lat, retry, prior=()):
     return tag, clock.now, dev
 
 
+def polls_after(trace):
+    """number of status requests recorded after each block (before the next block / the end)"""
+    out = []
+    for ev in trace:
+        if ev[0] == 'B':
+            out.append(0)
+        elif ev[0] == 'S' and out:
+            out[-1] += 1
+    return out
+
+
+def first_stop(plan, dev, timeout):
+    """The first block after which a correct upload cannot go on, from what the DEVICE did:
+    (index, 'rejected', cc)   the block was answered with a code other than 00h / 80h
+    (index, 'failed', cc)     accepted with 80h; a status poll then reported the final code cc != 00h
+    (index, 'pending', k)     accepted with 80h; every status poll made for it still said 80h (k of them would have)
+    None                      every block sent was accepted, directly or by a final 00h that was polled"""
+    polls = polls_after(dev.trace)
+    for i, a in enumerate(dev.answers):
+        if a is None or a == 0:
+            continue
+        if a != 0x80:
+            return (i, 'rejected', a)
+        item = plan[i] if i < len(plan) else ('o',)
+        k = item[1]
+        f = item[2] if item[0] == 'f' else 0
+        if timeout > 0:
+            if polls[i] <= k:
+                return (i, 'pending', k)
+            if f != 0:
+                return (i, 'failed', f)
+    return None
+
+
 def judge_upload(ctx, case, binary, plan, timeout, tag, dev):
     """Property oracle on the requests the reference device recorded."""
     trace = dev.trace
@@ -956,14 +1029,7 @@ def judge_upload(ctx, case, binary, plan, timeout, tag, dev):
     # what the plan means for this binary
     nblocks_needed = (len(binary) + DEVICE_BLOCK_LIMIT - 1) // DEVICE_BLOCK_LIMIT
     sent = b''.join(b for _, b in blocks)
-    first_err = None
-    silent = False
-    for i, a in enumerate(dev.answers):
-        if a is None:
-            silent = True          # outside the property's quantifier: only what was sent is judged
-        elif a not in (0, 0x80):
-            first_err = i
-            break
+    silent = any(a is None for a in dev.answers)   # outside the property's quantifier: only what was sent is judged
     ok = True
     for i, (num, blk) in enumerate(blocks):
         if num != i % 256:
@@ -990,7 +1056,8 @@ def judge_upload(ctx, case, binary, plan, timeout, tag, dev):
                     return False
     if silent:
         return True
-    if first_err is None:
+    stop = first_stop(plan, dev, timeout)
+    if stop is None:
         if tag != 'ok':
             ctx.violate('C18:upload:raises:' + tag, 'upload fails although no block was rejected', case,
                         expected='ok', observed=tag)
@@ -999,7 +1066,8 @@ def judge_upload(ctx, case, binary, plan, timeout, tag, dev):
             ctx.violate('C18:upload:data', 'upload returned but %d of %d bytes were sent' % (len(sent), len(binary)),
                         case, expected=len(binary), observed=len(sent))
             return False
-    else:
+    elif stop[1] == 'rejected':
+        first_err = stop[0]
         if tag != 'HpmError':
             ctx.violate('C18:upload:error-not-hpmerror',
                         'block %d rejected with 0x%02x: upload ends with %s instead of HpmError' % (
@@ -1009,6 +1077,24 @@ def judge_upload(ctx, case, binary, plan, timeout, tag, dev):
             ctx.violate('C18:upload:continues-after-error', 'requests were sent after the rejected block', case,
                         expected=first_err + 1, observed=len(blocks))
             return False
+    elif stop[1] == 'failed':
+        j, cc = stop[0], stop[2]
+        if tag != 'HpmError' or len(blocks) != j + 1:
+            ctx.violate('C18:upload:long-duration-failure-ignored',
+                        'block %d was accepted with 80h and Get upgrade status then reported that it FAILED (last '
+                        'completion code 0x%02x): %d more block(s) were sent and the upload ends with %s instead of '
+                        'HpmError' % (j, cc, len(blocks) - j - 1, tag), case,
+                        expected='HpmError, %d blocks' % (j + 1), observed='%s, %d blocks' % (tag, len(blocks)))
+            return False
+    else:
+        j = stop[0]
+        if tag == 'ok' or len(blocks) != j + 1:
+            ctx.violate('C18:upload:continues-while-in-progress',
+                        'block %d was accepted with 80h and every status poll made for it still reported 80h: the upload '
+                        'went on all the same (%d more block(s) sent, ends with %s) - it did not wait for the status before '
+                        'continuing' % (j, len(blocks) - j - 1, tag), case,
+                        expected='an error, %d blocks' % (j + 1), observed='%s, %d blocks' % (tag, len(blocks)))
+            return False
     return ok and nblocks_needed >= 0
 
 
@@ -1016,11 +1102,18 @@ def gen_plan(rng, nblocks, kind):
     if kind == 'none' or nblocks == 0:
         return []
     plan = [('o',)] * nblocks
-    if kind in ('inprog', 'inprog+err', 'inprog+silent'):
+    if kind in ('inprog', 'inprog+err', 'inprog+silent', 'inprog+fail'):
         p = rng.choice([0.05, 0.3, 1.0])
         plan = [('p', rng.choice([0, 0, 1, 2, 3, 7, 40])) if rng.random() < p else ('o',) for _ in range(nblocks)]
         if not any(x[0] == 'p' for x in plan):
             plan[rng.randrange(nblocks)] = ('p', 1)
+    if kind in ('fail', 'inprog+fail'):
+        # one block accepted with 80h whose long duration command then FAILS (HPM.1: final code in the status)
+        j = rng.choice([0, nblocks - 1, rng.randrange(nblocks)])
+        cc = rng.choice([0xFF, 0x81, 0x82, 0x83, 0xC0, 0xC9, 0xD5, 0x01, 0x7f, rng.randrange(1, 256)])
+        if cc == 0x80:
+            cc = 0x82
+        plan[j] = ('f', rng.choice([0, 0, 1, 2, 3]), cc)
     if kind in ('err', 'inprog+err'):
         j = rng.choice([0, nblocks - 1, rng.randrange(nblocks)])
         cc = rng.choice([0xC0, 0xC1, 0xC7, 0xC9, 0xD5, 0xFF, 0x81, 0x82, 0x01, 0x7f, rng.randrange(1, 256)])
@@ -1064,20 +1157,30 @@ def check_upload(ctx, drv, bs, binary, plan, timing, retry, label, judge=True, s
         judge_upload(ctx, case, binary, plan, timeout, tag, dev)
         good = len(ctx.violations) == before
     if drv is not None:
-        m = drv.ask('upload %d %d %d %d %d %s %s' % (bs, timeout, interval, lat, retry, _hx(binary), case['plan']))
+        m = drv.ask('upload %d %d %d %d %d %d %s %s' % (_CHECKED, bs, timeout, interval, lat, retry, _hx(binary),
+                                                         case['plan']))
         code = ('%s %d %s' % (tag, now, ' '.join(toks))).strip()
         if m.strip() != code:
             ctx.disagree('upload', case, _tok_diff(m, code), _tok_diff(code, m))
         # the Lean Spec oracle must agree with the harness oracle on what the real code did
         if judge and timeout > 0 and not silent and not any(ev[0] == 'X' for ev in dev.trace):
-            errs = [i for i, a in enumerate(dev.answers) if a not in (0, 0x80)]
-            if not errs:
+            stop = first_stop(plan, dev, timeout)
+            if stop is None:
                 j = drv.ask('judge %d %s %s %s' % (DEVICE_BLOCK_LIMIT, case['plan'], _hx(binary), ' '.join(toks)))
                 lean_ok = j.startswith('exact=1') and tag == 'ok'
-            else:
-                j = drv.ask('judgeabort %d %s %s %d %s' % (DEVICE_BLOCK_LIMIT, case['plan'], _hx(binary), errs[0],
+            elif stop[1] == 'rejected':
+                j = drv.ask('judgeabort %d %s %s %d %s' % (DEVICE_BLOCK_LIMIT, case['plan'], _hx(binary), stop[0],
                                                           ' '.join(toks)))
                 lean_ok = j == 'aborted=1' and tag == 'HpmError'
+            else:
+                item = plan[stop[0]]
+                j = drv.ask('judgelong %d %s %s %d %d %s' % (DEVICE_BLOCK_LIMIT, case['plan'], _hx(binary), stop[0],
+                                                             item[1], ' '.join(toks)))
+                if stop[1] == 'failed':
+                    lean_ok = j == 'abortedlong=1 sawfinal=1' and tag == 'HpmError'
+                else:
+                    lean_ok = j == 'abortedlong=1 sawfinal=0' and tag != 'ok'
+                ctx.count('upload:long-duration-' + stop[1])
             if lean_ok != good:
                 ctx.disagree('oracle', case, j, 'harness oracle says %s' % ('conforms' if good else 'violated'))
         if sample:
@@ -1099,7 +1202,7 @@ def upload_streams(ctx, drv, rng, scale):
         bs = int(H.Hpm._determine_max_block_size())
     except Exception:  # noqa
         bs = 22
-    kinds = ['none', 'inprog', 'inprog', 'err', 'inprog+err', 'silent', 'inprog+silent']
+    kinds = ['none', 'inprog', 'inprog', 'err', 'inprog+err', 'silent', 'inprog+silent', 'fail', 'inprog+fail']
     n = 0
     for size in UPLOAD_SIZES:
         binary = _rb(rng, size)
@@ -1114,6 +1217,13 @@ def upload_streams(ctx, drv, rng, scale):
     check_upload(ctx, drv, bs, binary, [('p', 1)] * 258, (20, 1, 0), 3, 'all-in-progress', sample=True)
     check_upload(ctx, drv, bs, binary, [('o',)] * 255 + [('p', 2), ('e', 0xC3)], (20, 1, 0), 3, 'error-at-wrap')
     check_upload(ctx, drv, bs, binary[:100], [('p', 100)], (20, 1, 0), 3, 'poll-time-out')
+    check_upload(ctx, drv, bs, binary[:100], [('o',), ('f', 0, 0xFF)], (20, 1, 0), 3, 'long-duration-failure')
+    check_upload(ctx, drv, bs, binary[:100], [('p', 2), ('f', 3, 0x82), ('e', 0xC1)], (20, 1, 0), 3,
+                 'long-duration-failure-after-wait')
+    check_upload(ctx, drv, bs, binary, [('o',)] * 255 + [('f', 1, 0xD5)], (20, 1, 0), 3, 'long-duration-failure-at-wrap')
+    check_upload(ctx, drv, bs, binary[:100], [('o',), ('o',), ('o',), ('o',), ('f', 2, 0x81)], (20, 1, 0), 3,
+                 'long-duration-failure-last-block')
+    check_upload(ctx, drv, bs, binary[:100], [('f', 30, 0x81)], (5, 2, 1), 3, 'failure-after-the-time-out')
     check_upload(ctx, drv, bs, binary[:100], [('p', 2)], (0, 1, 0), 3, 'timeout-zero', judge=False)
     # the same Ipmi object used for several uploads in a row (a finished one, an empty one, an aborted one before):
     # every upload numbers its blocks from zero and sends exactly its own binary
@@ -1247,7 +1357,11 @@ def parse_plan(s):
     plan = []
     if s != '-':
         for t in s.split(','):
-            plan.append((t[0],) if t in ('o', 't') else (t[0], int(t[1:])))
+            if t[0] == 'f':
+                k, cc = t[1:].split('.')
+                plan.append(('f', int(k), int(cc)))
+            else:
+                plan.append((t[0],) if t in ('o', 't') else (t[0], int(t[1:])))
     return plan
 
 
@@ -1335,6 +1449,8 @@ def _streams(ctx, tag, scale):
             if got != _nl(want):
                 ctx.disagree('generated-constants', {}, got, _nl(want))
         variant = probe_variant(ctx, work)
+        global _CHECKED
+        _CHECKED = probe_upload_variant(ctx)
         history_stream(ctx, drv, variant, ctx.rng(tag + '/history'), int(10 * scale))
         first = len(ctx.violations)
         global _KEEP
